@@ -33,6 +33,97 @@ fn kind(t: u16) -> &'static str {
     }
 }
 
+/// types whose RDATA the referee does not know but both codecs do: for
+/// these the two codecs are compared with each other on accept / reject
+fn both_know(t: u16) -> bool {
+    matches!(t, 13 | 16 | 17 | 33 | 39 | 43 | 46 | 47 | 48 | 50 | 51 | 63)
+}
+
+/// does the uncompressed-looking name at rd[off..] contain a compression pointer?
+fn name_has_pointer(rd: &[u8], mut off: usize) -> bool {
+    while off < rd.len() {
+        let b = rd[off];
+        if b == 0 {
+            return false;
+        }
+        if b >= 0xC0 {
+            return true;
+        }
+        if b > 63 {
+            return false;
+        }
+        off += 1 + b as usize;
+    }
+    false
+}
+
+fn name_end(rd: &[u8], mut off: usize) -> Option<usize> {
+    while off < rd.len() {
+        let b = rd[off];
+        if b == 0 {
+            return Some(off + 1);
+        }
+        if b > 63 {
+            return None;
+        }
+        off += 1 + b as usize;
+    }
+    None
+}
+
+/// RFC 4034 4.1.2: windows ascending, 1..32 octets each, no trailing zero
+/// octet (and at least one window)
+fn bitmap_canonical(b: &[u8]) -> bool {
+    if b.is_empty() {
+        return false;
+    }
+    let mut i = 0;
+    let mut last: i32 = -1;
+    while i < b.len() {
+        if i + 2 > b.len() {
+            return false;
+        }
+        let (w, l) = (b[i] as i32, b[i + 1] as usize);
+        if w <= last || l == 0 || l > 32 || i + 2 + l > b.len() || b[i + 1 + l] == 0 {
+            return false;
+        }
+        last = w;
+        i += 2 + l;
+    }
+    true
+}
+
+/// The documented disagreements between the codecs on RDATA the referee does
+/// not know (open known findings of C19); anything else is a violation.
+fn explain_accept_difference(m: &[u8], start: usize, old: Option<bool>, new: Option<bool>) -> Option<&'static str> {
+    let mref: &[u8] = m;
+    let mut p = old_parser(&mref, start)?;
+    let rec = ParsedRecord::parse(&mut p).ok()?;
+    let t = rec.rtype().to_int();
+    let rdlen = rec.rdlen() as usize;
+    let rd = &m[p.pos() - rdlen..p.pos()];
+    match (t, old?, new?) {
+        (16, true, false) if rd.is_empty() => Some("D_rdata_txt_empty"),
+        (33, true, false) if rd.len() >= 6 && name_has_pointer(rd, 6) => Some("D_rdata_compressed_name"),
+        (39, true, false) if name_has_pointer(rd, 0) => Some("D_rdata_compressed_name"),
+        (46, true, false) if rd.len() >= 18 && name_has_pointer(rd, 18) => Some("D_rdata_compressed_name"),
+        (47, true, false) if name_has_pointer(rd, 0) => Some("D_rdata_compressed_name"),
+        (47, true, false) => {
+            let e = name_end(rd, 0)?;
+            if !bitmap_canonical(&rd[e..]) { Some("D_rdata_bitmap_noncanonical") } else { None }
+        }
+        (50, true, false) => {
+            // alg flags iter(2) saltlen salt hashlen hash bitmap
+            let sl = *rd.get(4)? as usize;
+            let hl = *rd.get(5 + sl)? as usize;
+            let b = rd.get(6 + sl + hl..)?;
+            if !b.is_empty() && !bitmap_canonical(b) { Some("D_rdata_bitmap_noncanonical") } else { None }
+        }
+        (63, false, true) if rd.len() >= 6 && rd.len() < 18 => Some("D_rdata_zonemd_short_digest"),
+        _ => None,
+    }
+}
+
 //------------ established codec ---------------------------------------------------
 
 fn old_parser<'a>(m: &'a &'a [u8], start: usize) -> Option<Parser<'a, &'a [u8]>> {
@@ -61,7 +152,17 @@ pub fn old_view(m: &[u8], starts: &[usize]) -> Value {
     let mut names = vec![];
     let mut qs = vec![];
     let mut rs = vec![];
+    let mut acc = vec![];
     for &s in starts {
+        acc.push(match old_parser(&mref, s) {
+            Some(mut p) => match ParsedRecord::parse(&mut p) {
+                Ok(rec) if both_know(rec.rtype().to_int()) => {
+                    json!(rec.to_any_record::<AllRecordData<_, ParsedName<_>>>().is_ok())
+                }
+                _ => Value::Null,
+            },
+            None => Value::Null,
+        });
         names.push(match old_parser(&mref, s) {
             Some(mut p) => match ParsedName::parse(&mut p) {
                 Ok(n) => okv(json!([use_name(&n)]), p.pos()),
@@ -88,7 +189,7 @@ pub fn old_view(m: &[u8], starts: &[usize]) -> Value {
             None => fail(),
         });
     }
-    json!({"names": names, "qs": qs, "rs": rs, "msg": old_msg_view(m)})
+    json!({"names": names, "qs": qs, "rs": rs, "msg": old_msg_view(m), "acc": acc})
 }
 
 /// the new API's flattened view, computed with the established iterators
@@ -205,11 +306,20 @@ pub fn new_view(m: &[u8], starts: &[usize]) -> Value {
     let mut qs = vec![];
     let mut rs = vec![];
     if m.len() < 12 {
-        return json!({"names": [], "qs": [], "rs": [], "msg": {"items": [], "end": "short"}});
+        return json!({"names": [], "qs": [], "rs": [], "msg": {"items": [], "end": "short"}, "acc": []});
     }
     let contents = &m[12..];
+    let mut acc = vec![];
     for &s in starts {
         let st = s - 12;
+        acc.push(
+            match domain::new::base::Record::<RevNameBuf, &UnparsedRecordData>::split_message_bytes(contents, st) {
+                Ok((r, _)) if both_know(r.rtype.code.get()) => {
+                    json!(NewRecord::split_message_bytes(contents, st).is_ok())
+                }
+                _ => Value::Null,
+            },
+        );
         let a = NameBuf::split_message_bytes(contents, st);
         let b = RevNameBuf::split_message_bytes(contents, st);
         names.push(match (a, b) {
@@ -240,7 +350,7 @@ pub fn new_view(m: &[u8], starts: &[usize]) -> Value {
             }
         });
     }
-    json!({"names": names, "qs": qs, "rs": rs, "msg": new_msg_view(m)})
+    json!({"names": names, "qs": qs, "rs": rs, "msg": new_msg_view(m), "acc": acc})
 }
 
 fn new_msg_view(m: &[u8]) -> Value {
@@ -295,8 +405,40 @@ pub fn codec_view(m: &[u8], starts: &[usize]) -> Value {
     let new = observe(|| new_view(m, starts));
     let old2 = observe(|| old_view(m, starts));
     let new2 = observe(|| new_view(m, starts));
-    let mut o = json!({"agree": old == new, "old": old, "new": new});
-    if old2 != o["old"] || new2 != o["new"] {
+    let nonidem = old2 != old || new2 != new;
+    let agree = old == new;
+    // the accept / reject verdicts on RDATA the referee does not know are
+    // compared between the codecs only; they are not part of the spec's view
+    let strip = |mut v: Value| {
+        let acc = v.as_object_mut().and_then(|o| o.remove("acc")).unwrap_or(Value::Null);
+        (v, acc)
+    };
+    let (old, oacc) = strip(old);
+    let (new, nacc) = strip(new);
+    let mut o = json!({"agree": agree, "old": old, "new": new});
+    if oacc != nacc {
+        // each differing verdict must be one of the documented disagreements
+        let mut devs: Vec<String> = vec![];
+        let mut unexplained = false;
+        for (i, &st) in starts.iter().enumerate() {
+            let (a, b) = (oacc.get(i).cloned().unwrap_or(Value::Null), nacc.get(i).cloned().unwrap_or(Value::Null));
+            if a == b {
+                continue;
+            }
+            match explain_accept_difference(m, st, a.as_bool(), b.as_bool()) {
+                Some(d) => devs.push(d.to_string()),
+                None => unexplained = true,
+            }
+        }
+        devs.sort();
+        devs.dedup();
+        if unexplained || devs.is_empty() {
+            o["accept_differs"] = json!({"old": oacc, "new": nacc});
+        } else {
+            o["harness_devs"] = json!(devs);
+        }
+    }
+    if nonidem {
         o["nonidempotent"] = json!(true);
     }
     o
